@@ -369,6 +369,10 @@ fn tag_project(src: &str, trailing: bool) -> ProjectCase {
     files.insert("crlf.txt".into(), b"c1\r\nc2\r\n".to_vec());
     let mut c = ProjectCase::simple(files);
     c.trailing = trailing;
+    // the unused-tag check and injection must not depend on the build flavour
+    if src.len() % 3 == 0 {
+        c.mode = txtpp::Mode::InMemoryBuild;
+    }
     c
 }
 
